@@ -138,13 +138,25 @@ def r02_1(ctx: Ctx, rep: Report) -> None:  # noqa: C901
         f = ctx.func(q)
         cfg = ctx.cfg(f)
         loops = [n for n in cfg.live if n.kind == "for"]
-        if not loops:
+        units = []  # (function, variable, paths, anchor node, helper?)
+        if loops:
+            lp = loops[0]
+            units.append((f, src(lp.ast.target), [p_ for p_ in loop_body_paths(cfg, lp) if p_[-1][0] is lp], lp.ast, False))
+        else:
+            # the per-item conversion was extracted: [self._conv(item) for item in items]
+            for n in own_nodes(f.node):
+                if isinstance(n, (ast.ListComp, ast.GeneratorExp)) and len(n.generators) == 1 and isinstance(n.elt, ast.Call) and isinstance(n.elt.func, ast.Attribute) and src(n.elt.func.value) == "self" and len(n.elt.args) == 1 and src(n.elt.args[0]) == src(n.generators[0].target) and f.cls is not None:
+                    m = f.cls.lookup_method(n.elt.func.attr)
+                    if m is not None and len(m.params) == 2:
+                        from ..pathsem import function_paths as _fp
+
+                        hp = [pi.nodes for pi in _fp(ctx.cfg(m)) if not pi.raises and pi.ret is not None]
+                        units.append((m, m.params[1], hp, n, True))
+        if not units:
             continue
-        lp = loops[0]
-        var = src(lp.ast.target)
-        for path in loop_body_paths(cfg, lp):
-            if path[-1][0] is not lp:
-                continue
+        f, var, paths, anchor, is_helper = units[0]
+        lp_ast = anchor
+        for path in paths:
             atoms = [(src(n.ast), lab == "T") for n, lab in path if n.kind == "cond" and lab in ("T", "F")]
             kind = None
             for a, tr in atoms:
@@ -157,7 +169,7 @@ def r02_1(ctx: Ctx, rep: Report) -> None:  # noqa: C901
                         kind = "object"
             if kind is None:
                 continue
-            if not any(n.kind == "stmt" and n.ast is not None and any(isinstance(x, ast.Call) and isinstance(x.func, ast.Attribute) and x.func.attr == "append" for x in ast.walk(n.ast)) for n, _ in path):
+            if not is_helper and not any(n.kind == "stmt" and n.ast is not None and any(isinstance(x, ast.Call) and isinstance(x.func, ast.Attribute) and x.func.attr == "append" for x in ast.walk(n.ast)) for n, _ in path):
                 continue  # skipped lines (description, invalid)
             rep.instance()
             stamped = False
@@ -182,9 +194,9 @@ def r02_1(ctx: Ctx, rep: Report) -> None:  # noqa: C901
                                     if ctor_calls and all(any(k.arg == "platform" and src(k.value) in ("self._platform", "self.platform") for k in y.keywords) for y in ctor_calls):
                                         stamped = True
             if stamped:
-                rep.ok(f"{q}: {kind} item", "receives the container's platform", where=where(f, lp.ast))
+                rep.ok(f"{q}: {kind} item", "receives the container's platform", where=where(f, lp_ast))
             else:
-                rep.violation(q, f"{kind} item adopted without the container's platform", "an item added to the container keeps (or is parsed under) another platform: the ACL renders mixed syntax", where(f, lp.ast), inp="acl_nxos.items = [ios_ace]")
+                rep.violation(q, f"{kind} item adopted without the container's platform", "an item added to the container keeps (or is parsed under) another platform: the ACL renders mixed syntax", where(f, lp_ast), inp="acl_nxos.items = [ios_ace]")
     rep.floor(9, "item adoption branches")
 
 
